@@ -34,6 +34,7 @@ CONSTANTS Models,      \* model names offered by Next
           Deltas,      \* deltas offered to Move
           Leeways,     \* leeways offered to AgentsAt
           Deviations,  \* which unsanctioned operations Next offers: subset of {"F1","F3","F6"}
+          Guests,      \* Next also lets an agent built for one model join the environment of another
           Variants     \* {"mech"} for the exhaustive runs (the code); the trace spec also allows "ideal"
 
 VARIABLES world,       \* m -> [kind, ext, wrap]     kind \in {"plain", "space", "grid"}; ext = <<W, H, D>>
@@ -58,8 +59,10 @@ Drop(f, k)    == [x \in DOMAIN f \ {k} |-> f[x]]
 HasTypeIn(AG, a, T)  == \E i \in 1..Len(AG[a].comps) : AG[a].comps[i][1] = T
 SerialIn(AG, a, T)   == LET i == CHOOSE i \in 1..Len(AG[a].comps) : AG[a].comps[i][1] = T IN AG[a].comps[i][2]
 HasType(a, T)        == HasTypeIn(agents, a, T)
-ResidentIn(E, AG, a) == a \in DOMAIN AG /\ a \in Range(E[AG[a].model])
+ResidentIn(E, AG, a) == a \in DOMAIN AG /\ \E m \in DOMAIN E : a \in Range(E[m])
 Resident(a)          == ResidentIn(env, agents, a)
+\* the model whose environment the (resident) agent is in - not necessarily the model it was constructed for
+HomeOf(a)            == CHOOSE m \in DOMAIN env : a \in Range(env[m])
 Spatial(m)           == world[m].kind # "plain"
 EmptyPool            == [T \in Types |-> <<>>]
 
@@ -120,29 +123,28 @@ IdTaken(m, i) == \E b \in Range(env[m]) : IdOf(b) = i
 \* Environment.add_agent / SpaceWorld.add_agent(agent, x, y, z); p = <<>> in a plain world
 PlaceOK(m, p) == IF Spatial(m) THEN Len(p) = 3 /\ \A ax \in 1..3 : InRange(p[ax], world[m].ext[ax], world[m].kind)
                  ELSE p = <<>>
-Join(a, p, v) ==
-    /\ a \in DOMAIN agents /\ ~Resident(a)
-    /\ LET m == agents[a].model IN
-       /\ ~IdTaken(m, IdOf(a))
-       /\ PlaceOK(m, p)
-       /\ \A i \in 1..Len(agents[a].comps) : ~Listed(pool[m], a, agents[a].comps[i])
-       /\ LET E2 == [env EXCEPT ![m] = Append(@, a)] IN
-          /\ env' = E2
-          /\ pool' = [pool EXCEPT ![m] = PoolAfter(v, RegAll(pool[m], a, agents[a].comps), E2, agents, m)]
-       /\ pos' = IF Spatial(m) THEN Ext(pos, a, p) ELSE pos
+Join(a, m, p, v) ==
+    /\ a \in DOMAIN agents /\ ~Resident(a) /\ m \in DOMAIN world
+    /\ ~IdTaken(m, IdOf(a))
+    /\ PlaceOK(m, p)
+    /\ \A i \in 1..Len(agents[a].comps) : ~Listed(pool[m], a, agents[a].comps[i])
+    /\ LET E2 == [env EXCEPT ![m] = Append(@, a)] IN
+       /\ env' = E2
+       /\ pool' = [pool EXCEPT ![m] = PoolAfter(v, RegAll(pool[m], a, agents[a].comps), E2, agents, m)]
+    /\ pos' = IF Spatial(m) THEN Ext(pos, a, p) ELSE pos
     /\ UNCHANGED <<world, agents, dev>>
 
-JoinRejectedDup(a) ==              \* DuplicateAgentError
-    /\ a \in DOMAIN agents /\ IdTaken(agents[a].model, IdOf(a))
+JoinRejectedDup(a, m) ==           \* DuplicateAgentError
+    /\ a \in DOMAIN agents /\ m \in DOMAIN world /\ IdTaken(m, IdOf(a))
     /\ UNCHANGED vars
 
 \* out of bounds on an axis of positive extent: must be rejected.  On an axis of extent 0 a non-zero
 \* coordinate may be rejected or accepted (DESIGN 3.2)
 MustReject(m, p) == \E ax \in 1..3 : world[m].ext[ax] > 0 /\ ~InRange(p[ax], world[m].ext[ax], world[m].kind)
 MayReject(m, p)  == MustReject(m, p) \/ \E ax \in 1..3 : world[m].ext[ax] = 0 /\ p[ax] # 0
-JoinRejectedOOB(a, p) ==           \* Exception('Cannot add the Agent to position not on the map.')
-    /\ a \in DOMAIN agents /\ Spatial(agents[a].model) /\ Len(p) = 3
-    /\ MayReject(agents[a].model, p)
+JoinRejectedOOB(a, m, p) ==        \* Exception('Cannot add the Agent to position not on the map.')
+    /\ a \in DOMAIN agents /\ m \in DOMAIN world /\ Spatial(m) /\ Len(p) = 3
+    /\ MayReject(m, p)
     /\ UNCHANGED vars
 
 \* Environment.remove_agent(id)
@@ -181,11 +183,11 @@ LeaveRejected(m, i) ==             \* AgentNotFoundError
 \* Agent.add_component; reg = the caller also calls register_component
 Attach(a, T, s, reg, v) ==
     /\ a \in DOMAIN agents /\ ~HasType(a, T)
-    /\ LET m   == agents[a].model
-           AG2 == [agents EXCEPT ![a].comps = Append(@, <<T, s>>)]
+    /\ LET AG2 == [agents EXCEPT ![a].comps = Append(@, <<T, s>>)]
        IN /\ agents' = AG2
           /\ IF Resident(a)
-             THEN LET mech == IF reg THEN [pool[m] EXCEPT ![T] = Append(@, <<a, s>>)] ELSE pool[m]
+             THEN LET m    == HomeOf(a)
+                      mech == IF reg THEN [pool[m] EXCEPT ![T] = Append(@, <<a, s>>)] ELSE pool[m]
                       P2   == PoolAfter(v, mech, env, AG2, m)
                   IN /\ (reg => <<a, s>> \notin Range(pool[m][T]))
                      /\ pool' = [pool EXCEPT ![m] = P2]
@@ -200,12 +202,12 @@ AttachRejected(a, T) ==            \* ValueError: already has a component of tha
 \* Agent.remove_component; dereg = the caller first calls deregister_component
 Detach(a, T, dereg, v) ==
     /\ a \in DOMAIN agents /\ HasType(a, T)
-    /\ LET m   == agents[a].model
-           s   == SerialIn(agents, a, T)
+    /\ LET s   == SerialIn(agents, a, T)
            AG2 == [agents EXCEPT ![a].comps = SelectSeq(@, LAMBDA c : c[1] # T)]
        IN /\ agents' = AG2
           /\ IF Resident(a)
-             THEN LET mech == IF dereg THEN [pool[m] EXCEPT ![T] = Without(@, <<a, s>>)] ELSE pool[m]
+             THEN LET m    == HomeOf(a)
+                      mech == IF dereg THEN [pool[m] EXCEPT ![T] = Without(@, <<a, s>>)] ELSE pool[m]
                       P2   == PoolAfter(v, mech, env, AG2, m)
                   IN /\ (dereg => <<a, s>> \in Range(pool[m][T]))
                      /\ pool' = [pool EXCEPT ![m] = P2]
@@ -216,7 +218,7 @@ Detach(a, T, dereg, v) ==
 \* consequence of F1: deregister_component of a component that was never listed raises, nothing is detached
 DetachDeregRejected(a, T) ==       \* KeyError
     /\ a \in DOMAIN agents /\ HasType(a, T) /\ Resident(a)
-    /\ <<a, SerialIn(agents, a, T)>> \notin Range(pool[agents[a].model][T])
+    /\ <<a, SerialIn(agents, a, T)>> \notin Range(pool[HomeOf(a)][T])
     /\ dev # {}
     /\ UNCHANGED vars
 
@@ -227,7 +229,7 @@ DetachRejected(a, T) ==            \* ComponentNotFoundError
 \* SystemManager.register_component / deregister_component called by the user for a component a carries
 RegisterManual(a, T, v) ==
     /\ a \in DOMAIN agents /\ HasType(a, T) /\ Resident(a)
-    /\ LET m == agents[a].model
+    /\ LET m == HomeOf(a)
            s == SerialIn(agents, a, T)
        IN /\ <<a, s>> \notin Range(pool[m][T])
           /\ LET P2 == PoolAfter(v, [pool[m] EXCEPT ![T] = Append(@, <<a, s>>)], env, agents, m)
@@ -236,7 +238,7 @@ RegisterManual(a, T, v) ==
 
 RegisterRejected(a, T) ==          \* KeyError: already registered
     /\ a \in DOMAIN agents /\ HasType(a, T) /\ Resident(a)
-    /\ <<a, SerialIn(agents, a, T)>> \in Range(pool[agents[a].model][T])
+    /\ <<a, SerialIn(agents, a, T)>> \in Range(pool[HomeOf(a)][T])
     /\ UNCHANGED vars
 
 (***************************************************************************)
@@ -251,7 +253,7 @@ MoveTarget(m, p, d, free) ==
         ELSE IF world[m].wrap THEN WrapTo(p[ax], d[ax], e) ELSE Clamp(p[ax], d[ax], e, world[m].kind)]
 Move(a, d, free) ==
     /\ a \in DOMAIN pos
-    /\ pos' = [pos EXCEPT ![a] = MoveTarget(agents[a].model, pos[a], d, free)]
+    /\ pos' = [pos EXCEPT ![a] = MoveTarget(HomeOf(a), pos[a], d, free)]
     /\ UNCHANGED <<world, agents, env, pool, dev>>
 
 MoveRejected(a) ==                 \* ComponentNotFoundError: the agent has no position
@@ -261,13 +263,13 @@ MoveRejected(a) ==                 \* ComponentNotFoundError: the agent has no p
 \* SpaceWorld.move_to(agent, x, y, z)
 MoveTo(a, p) ==
     /\ a \in DOMAIN pos
-    /\ ~MustReject(agents[a].model, p)
+    /\ ~MustReject(HomeOf(a), p)
     /\ pos' = [pos EXCEPT ![a] = p]
     /\ UNCHANGED <<world, agents, env, pool, dev>>
 
 MoveToRejected(a, p) ==            \* IndexError (out of range) / ComponentNotFoundError (no position)
     /\ a \in DOMAIN agents
-    /\ a \in DOMAIN pos => MayReject(agents[a].model, p)
+    /\ a \in DOMAIN pos => MayReject(HomeOf(a), p)
     /\ UNCHANGED vars
 
 (***************************************************************************)
@@ -325,13 +327,13 @@ Init == /\ world = << >> /\ agents = << >> /\ env = << >> /\ pool = << >> /\ pos
 AllPlaceArgs == Triple(Coords) \cup {<<>>}
 
 \* what Next offers (named, with all parameters, so that TLC labels the edges of the dumped graph)
-OfferJoin(a, p, v) == Join(a, p, v)
+OfferJoin(a, m, p, v) == a \in DOMAIN agents /\ (Guests \/ m = agents[a].model) /\ Join(a, m, p, v)
 OfferAttach(a, T, s, reg, v) ==
     /\ a \in DOMAIN agents
     /\ (Resident(a) /\ ~reg) => "F1" \in Deviations
-    /\ (Resident(a) /\ reg /\ \E j \in 1..Len(env[agents[a].model]) :
-            LET b == env[agents[a].model][j] IN
-            HasType(b, T) /\ \E i \in 1..Len(env[agents[a].model]) : i < j /\ env[agents[a].model][i] = a)
+    /\ (Resident(a) /\ reg /\ \E j \in 1..Len(env[HomeOf(a)]) :
+            LET b == env[HomeOf(a)][j] IN
+            HasType(b, T) /\ \E i \in 1..Len(env[HomeOf(a)]) : i < j /\ env[HomeOf(a)][i] = a)
           => "F6" \in Deviations
     /\ Attach(a, T, s, reg, v)
 OfferDetach(a, T, dereg, v) ==
@@ -343,9 +345,9 @@ OfferMove(a, d) == Move(a, d, <<0, 0, 0>>)
 Next ==
     \/ \E m \in Models, w \in WorldKinds : NewModel(m, w)
     \/ \E a \in AgentObjs, m \in Models, tg \in TagVals : NewAgent(a, m, tg)
-    \/ \E a \in AgentObjs, p \in AllPlaceArgs, v \in Variants : OfferJoin(a, p, v)
-    \/ \E a \in AgentObjs : JoinRejectedDup(a)
-    \/ \E a \in AgentObjs, p \in Triple(Coords) : JoinRejectedOOB(a, p)
+    \/ \E a \in AgentObjs, m \in Models, p \in AllPlaceArgs, v \in Variants : OfferJoin(a, m, p, v)
+    \/ \E a \in AgentObjs, m \in Models : JoinRejectedDup(a, m)
+    \/ \E a \in AgentObjs, m \in Models, p \in Triple(Coords) : JoinRejectedOOB(a, m, p)
     \/ \E m \in Models, a \in AgentObjs, v \in Variants : Leave(m, IdOf(a), v)
     \/ \E m \in Models, a \in AgentObjs : LeaveRejected(m, IdOf(a))
     \/ \E a \in AgentObjs, T \in Types, s \in Serials, reg \in BOOLEAN, v \in Variants : OfferAttach(a, T, s, reg, v)
@@ -372,14 +374,15 @@ C03_Isolation == [][\A m \in DOMAIN world :
                        (pool'[m] # pool[m] \/ env'[m] # env[m]) =>
                           \A n \in DOMAIN world \ {m} : pool'[n] = pool[n] /\ env'[n] = env[n]]_vars
 C04_OnePerId  == \A m \in DOMAIN world : \A i, j \in 1..Len(env[m]) : i # j => IdOf(env[m][i]) # IdOf(env[m][j])
-C04_EnvAgents == \A m \in DOMAIN world : \A a \in Range(env[m]) : a \in DOMAIN agents /\ agents[a].model = m
+C04_EnvAgents == \A m \in DOMAIN world : \A a \in Range(env[m]) :
+                    a \in DOMAIN agents /\ \A n \in DOMAIN world \ {m} : a \notin Range(env[n])
 C04_LeaveEnabled == \A m \in DOMAIN world : \A a \in Range(env[m]) :
                        FirstMissing(pool[m], a, agents[a].comps) = 0 => ENABLED Leave(m, IdOf(a), "mech")
 C08_Contained == \A a \in DOMAIN pos : \A ax \in 1..3 :
-                    LET w == world[agents[a].model] IN
+                    LET w == world[HomeOf(a)] IN
                     w.ext[ax] > 0 => 0 <= pos[a][ax] /\ pos[a][ax] <= Hi(w.ext[ax], w.kind)
 C08_PosIffResidentSpatial ==
-    dev = {} => \A a \in DOMAIN agents : (a \in DOMAIN pos) <=> (Resident(a) /\ Spatial(agents[a].model))
+    dev = {} => \A a \in DOMAIN agents : (a \in DOMAIN pos) <=> (Resident(a) /\ Spatial(HomeOf(a)))
 \* kernels: containment of Clamp and WrapTo for every argument offered
 C08_Kernels   == \A e \in 1..6 : \A p \in 0..e : \A d \in -14..14 :
                     /\ (p <= e - 1 => Clamp(p, d, e, "grid") \in 0..(e - 1))
